@@ -42,7 +42,7 @@ theorem tyS_wf (lp : Bool) (ret : Option Ty) (g : TEnv) (e : Expr) (T : Ty) (h :
     · obtain ⟨t, _, h2⟩ := bind_ok h
       split at h2
       · exact okw h2
-      all_goals cases h2
+      all_goals first | (cases h2; done) | (split at h2 <;> (try split at h2) <;> (try split at h2) <;> (try split at h2) <;> first | exact okw h2 | cases h2)
   | and a b =>
     simp only [tyS] at h
     obtain ⟨ta, _, h2⟩ := bind_ok h
@@ -71,7 +71,7 @@ theorem tyS_wf (lp : Bool) (ret : Option Ty) (g : TEnv) (e : Expr) (T : Ty) (h :
     · split at h3
       · exact okw h3
       · cases h3; rfl
-      all_goals cases h3
+      all_goals first | (cases h3; done) | (split at h3 <;> (try split at h3) <;> (try split at h3) <;> (try split at h3) <;> first | exact okw h3 | cases h3)
   | tacc e n =>
     simp only [tyS] at h
     obtain ⟨t, _, h2⟩ := bind_ok h
@@ -79,7 +79,7 @@ theorem tyS_wf (lp : Bool) (ret : Option Ty) (g : TEnv) (e : Expr) (T : Ty) (h :
     · split at h2
       · exact okw h2
       · cases h2
-    all_goals cases h2
+    all_goals first | (cases h2; done) | (split at h2 <;> (try split at h2) <;> (try split at h2) <;> (try split at h2) <;> first | exact okw h2 | cases h2)
   | ifElse c t e =>
     simp only [tyS] at h
     obtain ⟨tc, _, h2⟩ := bind_ok h
@@ -150,7 +150,7 @@ theorem tyS_wf (lp : Bool) (ret : Option Ty) (g : TEnv) (e : Expr) (T : Ty) (h :
     · split at h3
       · exact okw h3
       · cases h3
-    all_goals cases h3
+    all_goals first | (cases h3; done) | (split at h3 <;> (try split at h3) <;> (try split at h3) <;> (try split at h3) <;> first | exact okw h3 | cases h3)
   | ret e =>
     cases ret with
     | none => simp only [tyS] at h; cases h
@@ -195,7 +195,7 @@ theorem tyS_wf (lp : Bool) (ret : Option Ty) (g : TEnv) (e : Expr) (T : Ty) (h :
         split at h4
         · exact okw h4
         · cases h4
-    all_goals cases h3
+    all_goals first | (cases h3; done) | (split at h3 <;> (try split at h3) <;> (try split at h3) <;> (try split at h3) <;> first | exact okw h3 | cases h3)
   | loop body =>
     simp only [tyS] at h
     obtain ⟨t, _, h2⟩ := bind_ok h
@@ -214,6 +214,15 @@ theorem tyS_wf (lp : Bool) (ret : Option Ty) (g : TEnv) (e : Expr) (T : Ty) (h :
     · obtain ⟨t, _, h2⟩ := bind_ok h
       obtain ⟨t2, _, h3⟩ := bind_ok h2
       cases h3; rfl
+  | forE x it body =>
+    simp only [tyS] at h
+    obtain ⟨ti, _, h2⟩ := bind_ok h
+    split at h2
+    · split at h2
+      · cases h2
+      · obtain ⟨t, _, h3⟩ := bind_ok h2
+        cases h3; rfl
+    all_goals cases h2
   | brk =>
     simp only [tyS] at h
     split at h
@@ -371,6 +380,54 @@ def PWS (f : Nat) : Prop := ∀ (lp : Bool) (ret : Option Ty) (S : STy) (g : TEn
   EnvOkG S env g → GWf g → RWf ret → StoreOk S σ → wf ty = true → tyS lp ret g e = .ok T1 → tyS true ret ((x, ty) :: g) body = .ok T →
   OutP lp ret S (fun S' v => VT S' .void v) (whileSetGo f env x ty e body σ)
 
+
+def PFo (f : Nat) : Prop := ∀ (lp : Bool) (ret : Option Ty) (S : STy) (g : TEnv) (env : Env) (x : String) (itv : Val) (body : Expr) (b t T : Ty) (σ : St),
+  EnvOkG S env g → GWf g → RWf ret → StoreOk S σ → VT S (.fn [] (.tup [b, t])) itv → eqv b .bool = true → wf t = true →
+  tyS true ret ((x, t) :: ("$con", .bool) :: g) body = .ok T →
+  OutP lp ret S (fun S' v => VT S' .void v) (forGo f env x itv body σ)
+
+/-- a value of a pair type is a pair of values of the component types -/
+theorem vt_pair {v : Val} {a b : Ty} (h : VT S (.tup [a, b]) v) : ∃ x y, v = .tup [x, y] ∧ VT S a x ∧ VT S b y := by
+  obtain ⟨hs, hg⟩ := h
+  cases hg with
+  | tup es hes =>
+    simp only [asType, C01.sub_tup] at hs
+    match es, hs, hes with
+    | [x, y], hs, hes =>
+      simp only [asTypeL, matchesL, Bool.and_eq_true, Bool.and_true] at hs
+      exact ⟨x, y, rfl, ⟨hs.1, hes x (by simp)⟩, ⟨hs.2, hes y (by simp)⟩⟩
+    | [], hs, _ => simp [asTypeL, matchesL] at hs
+    | [_], hs, _ => simp [asTypeL, matchesL] at hs
+    | _ :: _ :: _ :: _, hs, _ => simp [asTypeL, matchesL] at hs
+  | _ => simp [asType, sub, eqv] at hs
+
+/-- a value of a tuple type is a tuple whose elements are values of the element types -/
+theorem vt_tuple {v : Val} {ts : List Ty} (h : VT S (.tup ts) v) : ∃ vs, v = .tup vs ∧ ListOk S ts vs := by
+  obtain ⟨hs, hg⟩ := h
+  cases hg with
+  | tup es hes => exact ⟨es, rfl, by simpa [asType, C01.sub_tup] using hs, hes⟩
+  | _ => simp [asType, sub, eqv] at hs
+
+/-- `(a, b, ..) := (v, w, ..)`: the declared names, later ones shadowing earlier ones, respect the extended typing -/
+theorem envOkG_bindAll : ∀ (xs : List String) (ts : List Ty) (vs : List Val) (env : Env) (g : TEnv),
+    EnvOkG S env g → GWf g → wfL ts = true → matchesL (asTypeL vs) ts = true → (∀ v ∈ vs, Good S v) →
+    EnvOkG S ((List.zip xs vs).foldl (fun en (p : String × Val) => en.insert p.1 p.2) env) (bindAll (List.zip xs ts) g) ∧
+      GWf (bindAll (List.zip xs ts) g)
+  | [], ts, vs, env, g, he, hg, _, _, _ => by simpa [bindAll] using ⟨he, hg⟩
+  | x :: xs, [], vs, env, g, he, hg, _, hm, _ => by
+    cases vs with
+    | nil => simpa [bindAll] using ⟨he, hg⟩
+    | cons v vs => simp [asTypeL, matchesL] at hm
+  | x :: xs, t :: ts, [], env, g, he, hg, _, hm, _ => by simp [asTypeL, matchesL] at hm
+  | x :: xs, t :: ts, v :: vs, env, g, he, hg, hw, hm, hgood => by
+    simp only [asTypeL] at hm
+    rw [matchesL] at hm
+    simp only [Bool.and_eq_true] at hm
+    simp only [wfL, Bool.and_eq_true] at hw
+    have hv : VT S t v := ⟨hm.1, hgood v (by simp)⟩
+    have := envOkG_bindAll xs ts vs (env.insert x v) ((x, t) :: g) (envOkG_insert env g x v t he hv) (gwf_cons g x t hg hw.1) hw.2 hm.2
+      (fun z hz => hgood z (by simp [hz]))
+    simpa [bindAll, List.zip, List.foldl] using this
 
 theorem asTypeL_none : ∀ (vs : List Val) (n : Nat), vs[n]? = none → (asTypeL vs)[n]? = none
   | [], _, _ => by simp [asTypeL]
